@@ -69,6 +69,11 @@ def make_case(rng, max_len=40):
         if cfg["entry"] != "stream_frames_gen" and cfg["delimited"] and rng.random() < .5:
             cfg["no_options"] = True          # ... and no options at all: everything guessed from the first statement
             cfg["preset"] = (4000, 150, 32)
+    if cfg["entry"] in ("graph_serialize", "graph_serialize_options", "graph_serialize_path", "stream_frames_store") and rng.random() < .06:
+        # an EMPTY Graph / Dataset (or a Dataset that holds only empty named graphs): what is written must read back as empty
+        stmts = []
+        if not (cfg.get("empty_graphs") and rng.random() < .5):
+            cfg["empty_graphs"] = []
     if rng.random() < .15 and stmts and not cfg.get("no_options"):
         cfg["failed_attempt_first"] = rng.randint(1, len(stmts))
     if rng.random() < .15 and not cfg.get("no_options"):
